@@ -310,6 +310,14 @@ def _run(world: World, plan):
             return ('refuse', r.get('delay') or 0.0)
         return None
     world.net.connect_hook = connect_hook
+    pierce_pending = {}
+
+    class PierceTap(Tap):
+        def on_connect(self, conn):
+            if conn.dst.name == 'alice' and pierce_pending.get(conn.src.name, 0) > 0:
+                pierce_pending[conn.src.name] -= 1
+                conn.meta['pierce_after_stop'] = True      # (whether it is "after the stop" is decided by its opening time)
+    world.net.taps.append(PierceTap())
     for name, xp in xpeers.items():
         r = plan['reach'].get(name, {})
         if r.get('pierce'):
@@ -317,6 +325,7 @@ def _run(world: World, plan):
 
             async def delayed(relay, xp=xp, r=r, orig=orig):
                 await asyncio.sleep(r.get('pierce_delay', 0.05))
+                pierce_pending[xp.name] = pierce_pending.get(xp.name, 0) + 1
                 await orig(relay)
             xp.peer.connect_to_peer_handler = delayed
 
@@ -456,6 +465,17 @@ def _run(world: World, plan):
     class EvTap(Tap):
         def on_connect(self, conn):
             pass
+
+    lost_at = {}            # id(sim connection) -> instant at which alice's end of it was closed
+
+    class LostTap(Tap):
+        def on_lost(self, conn, side, exc):
+            end = conn.a if side == 'a' else conn.b
+            if end is not None and getattr(end, 'context', None) is not None:
+                host = conn.src if side == 'a' else conn.dst
+                if host.name == 'alice':
+                    lost_at.setdefault(id(conn), loop.time())
+    world.net.taps.append(LostTap())
 
     def on_attempt_watch():
         # connect attempts towards the target's peer count as negotiation events
@@ -722,6 +742,20 @@ def _run(world: World, plan):
             for a in world.net.connect_attempts:
                 if a['src'] == 'alice' and a['dst'] == peer and a['time'] > t0:
                     world.violate('C06.connect_after', **facts, what='connect attempt')
+        # (2b) connections the peer opens towards the client after the stop (an answer to the ConnectToPeer of the
+        # negotiation that was cut, arriving late): the ticket means nothing any more, the client has to turn them away at
+        # once instead of adopting them for the stopped transfer (an adopted P connection would linger until its 60 s read
+        # timeout, an adopted F connection for ever)
+        if results.get('all_stopped') and plan.get('late_f') is None and plan.get('offer_on_stop') is None \
+                and not plan.get('ul_break') and not plan.get('dl_break') and plan.get('spontaneous') is None:
+            for conn in world.net.conns:
+                if conn.src.name == peer and conn.dst.name == 'alice' and conn.opened_at > t0 + 1e-9 \
+                        and conn.meta.get('pierce_after_stop'):
+                    closed = lost_at.get(id(conn))
+                    if closed is None or closed - conn.opened_at > 10.0:
+                        world.violate('C06.connect_after', **facts, what='late pierced connection adopted')
+                        break
+                    world.probe('late_pierce_turned_away')
         if results.get('late_f_kept'):
             world.violate('C06.connect_after', **facts, what='file connection of the stopped transfer kept open')
         # (3) fields
